@@ -58,6 +58,9 @@ func (x *c07World) Enabled() []bfs.Op {
 	}
 	ops = append(ops, bfs.Op{Name: "List"}, bfs.Op{Name: "Signers"})
 	o("Add", "K1", "c.past", "c.cur", "c.lapsing", "c.forever", "c.future", "c.zero", "c.edge", "c.vb63", "c.va63", "K2", "c2.past", "c.inverted")
+	// a YSSHCA-issued certificate that lapses during the history: in no-upstream mode it is hidden from listings (C09's
+	// subject) but "purged from both" still applies to it
+	o("Add", "y.lapsing")
 	if !x.w.noUp {
 		// (upstream mode only: in no-upstream mode these two carry a YSSHCA KeyID and are hidden by design, C09's subject)
 		o("Add", "h1", "h1past") // can then be held in memory AND by the underlying agent
@@ -252,6 +255,9 @@ func (x *c07World) Apply(op bfs.Op) (fs []bfs.Finding) {
 			want := map[string]int{}
 			if !uaLocked {
 				for n := range expUA {
+					if w.noUp && hidden(idents[n]) {
+						continue // hidden by design in no-upstream mode
+					}
 					want[n]++
 				}
 			}
@@ -279,7 +285,7 @@ func (x *c07World) Apply(op bfs.Op) (fs []bfs.Finding) {
 				add("sign:bad-signature", fmt.Sprintf("Sign(%s) returned a signature that does not verify: %v", op.Arg, verr))
 			}
 		}
-		present := (!uaLocked && expUA[op.Arg]) || (!uaLocked && memNow[op.Arg] && hasKey(post, id.keyBlob) && hasPlain(post, id.keyBlob))
+		present := (!uaLocked && expUA[op.Arg] && !(w.noUp && hidden(id))) || (!uaLocked && memNow[op.Arg] && hasKey(post, id.keyBlob) && hasPlain(post, id.keyBlob))
 		if present && r.err != nil && expUA[op.Arg] && memNow[op.Arg] && !hasPlain(post, id.keyBlob) {
 			// held twice (memory + underlying agent) while the plain key is gone: the shim redirects to the plain key.
 			// C10 owns "signing works for every held identity" and records this history as a known finding; C07's
